@@ -92,6 +92,23 @@ def install_maps(ex):
         new = Agg('struct', m.name, None, list(m.fields) + [Agg('tuple', None, None, [C.res(ex_, st, k), A[1]])])
         return [([], Opaque('&mut V', 'inserted value'), lambda s2: ex_.write(s2, r.fid, r.place, new))]
     ex.stub(r'VacantEntry::<.*>::insert$', vinsert, 'VacantEntry::insert')
+
+    def binsert(ex_, st, c, A):
+        m = bt(st, A[0])
+        if m is None:
+            return None
+        r = C.base_ref(ex_, st, A[0])
+        alts, neg = [], []
+        for i, e in enumerate(m.fields):
+            q = key_eq(ex_, st, e.fields[0], A[1])
+            ents = list(m.fields)
+            ents[i] = Agg('tuple', None, None, [e.fields[0], A[2]])
+            alts.append((neg + [q], some(e.fields[1]), (lambda s2, ents=ents: ex_.write(s2, r.fid, r.place, Agg('struct', m.name, None, ents)))))
+            neg = neg + [z3.Not(q)]
+        new = Agg('struct', m.name, None, list(m.fields) + [Agg('tuple', None, None, [C.res(ex_, st, A[1]), A[2]])])
+        alts.append((neg, none(), lambda s2: ex_.write(s2, r.fid, r.place, new)))
+        return alts
+    ex.stub(r'BTreeMap::<.*>::insert$', binsert, 'BTreeMap::insert (symbolic key identities)')
     ex.stub(r'OccupiedEntry::<.*>::key$', lambda ex_, st, c, A: (lambda e: e.fields[1] if isinstance(e, Agg) and e.name == '~bentry' else None)(C.res(ex_, st, A[0])), 'OccupiedEntry::key')
 
     def hm_from(ex_, st, c, A):
@@ -106,10 +123,15 @@ def install_maps(ex):
     ex.stub(r' as IntoIterator>::into_iter$', lambda ex_, st, c, A: Agg('struct', '~vec_iter', None, list(A[0].fields)) if isinstance(A[0], Agg) and A[0].name in ('~vec', '~hmap', '~btree') else None, 'Vec / map (passed as impl IntoIterator)::into_iter')
 
 
-def round_trip(ctx, label, build):
+def round_trip(ctx, label, build, fmt='EST'):
     P = ctx.prog('core')
     f_ast = P.method('ast/expr.rs', 'try_into_expr', nargs=1, arg0=r'ast::expr::Expr<T>$')
-    f_est = P.method('est/expr.rs', 'try_into_ast', nargs=2)
+    if fmt == 'EST':
+        f_est = P.method('est/expr.rs', 'try_into_ast', nargs=2)
+        builder, EEX_ = 'est::expr::Builder', EEX
+    else:
+        f_est = P.method('pst/ast_conversions.rs', 'into_expr', nargs=1)
+        builder, EEX_ = 'pst::expr::PstBuilder', 'pst::expr::Expr'
     ctx.use(f_ast)
     ctx.use(f_est)
     # ---------------- AST -> EST
@@ -120,7 +142,7 @@ def round_trip(ctx, label, build):
     install_maps(ex)
     C.install(ex)
     kids = [Opaque(AEX, f'child{i}') for i in range(3)]
-    ests = [Opaque(EEX, f'est of child{i}') for i in range(3)]
+    ests = [Opaque(EEX_, f'{fmt} of child{i}') for i in range(3)]
     back = [Opaque(AEX, f'child{i} (round-tripped)') for i in range(3)]
     payload = {k: Opaque(t, k) for k, t in (('attr', 'smol_str::SmolStr'), ('pattern', 'ast::pattern::Pattern'), ('entity_type', 'ast::entity::EntityType'), ('fn_name', 'ast::name::Name'),
                                              ('var', 'ast::expr::Var'), ('slot', 'ast::slot::SlotId'), ('key0', 'smol_str::SmolStr'), ('key1', 'smol_str::SmolStr'))}
@@ -148,11 +170,12 @@ def round_trip(ctx, label, build):
     ex.stub(r'(EntityType|Name) as (ToSmolStr|ToString)>::(to_smolstr|to_string)$|<T as (ToSmolStr|ToString)>::(to_smolstr|to_string)$', lambda ex_, st, c, A: {payload['entity_type'].id: est_ty, payload['fn_name'].id: est_fn}.get(getattr(strip(ex_, st, A[0]), 'id', None)),
             'printing of an entity type / function name (opaque text; printing and parsing names is C05)')
     ex.stub(r'::Data as Default>::default$', lambda ex_, st, c, A: UNIT, 'ExprBuilder::Data = () for the EST builder')
+    ex.stub(r'<(smol_str::)?SmolStr as ToString>::to_string$', lambda ex_, st, c, A: strip(ex_, st, A[0]), 'SmolStr::to_string (the same text)')
     heap = {'N': ast_expr(node)}
-    outs = ex.run(f_ast, [ast_expr(node)], heap=heap, subst={'T': '()', 'B': 'est::expr::Builder'})
+    outs = ex.run(f_ast, [ast_expr(node)], heap=heap, subst={'T': '()', 'B': builder})
     ctx.absorb(ex)
-    nm = f'AST -> EST -> AST[{label}]'
-    ctx.panic_summary(nm + ' (to EST)', outs, ex)
+    nm = f'AST -> {fmt} -> AST[{label}]'
+    ctx.panic_summary(nm + f' (to {fmt})', outs, ex)
     rets = [o for o in outs if o.kind == 'ret']
     if len(rets) != 1 or not (isinstance(rets[0].val, Agg) and rets[0].val.variant == 'Ok'):
         raise NotEncoded(f'{nm}: AST -> EST gave {[(o.kind, repr(o.val)[:80]) for o in outs][:3]}')
@@ -176,27 +199,34 @@ def round_trip(ctx, label, build):
         if i is None:
             return None
         return ok(back[i])
-    ex2.stub(r'est::expr::<impl at [^>]*>::try_into_ast$|est::expr::Expr::try_into_ast$', rec_est, 'recursive EST -> AST conversion of the EST of child i: the child again (induction hypothesis), logged')
+    ex2.stub(r'est::expr::<impl at [^>]*>::try_into_ast$|est::expr::Expr::try_into_ast$', (lambda ex_, st, c, A: rec_est(ex_, st, c, A)) if fmt == 'EST' else (lambda ex_, st, c, A: None), 'recursive EST -> AST conversion of the EST of child i: the child again (induction hypothesis), logged')
+    if fmt == 'PST':
+        ex2.stub(r'<impl pst::expr::Expr>::into_expr|pst::ast_conversions::<impl at [^>]*>::into_expr$|pst::expr::Expr::into_expr::<', lambda ex_, st, c, A: (lambda r: None if r is None else r.fields[0])(rec_est(ex_, st, c, A)), 'recursive PST -> AST conversion of the PST of child i: the child again (induction hypothesis), logged')
+
     ex2.stub(r'Pattern as From<&\[.*PatternElem\]>>::from$', lambda ex_, st, c, A: payload['pattern'], 'EST pattern elements -> ast::Pattern (opaque)')
     ex2.stub(r'Vec::<.*PatternElem>::as_slice$', lambda ex_, st, c, A: A[0], 'Vec::as_slice')
+    ex2.stub(r'(^|::)elements_into_ast_pattern::<', lambda ex_, st, c, A: payload['pattern'], 'PST pattern elements -> ast::Pattern (opaque)')
+    ex2.stub(r'SmolStr as From<(std::string::)?String>>::from$|String as Into<(smol_str::)?SmolStr>>::into$', lambda ex_, st, c, A: A[0], 'String -> SmolStr (the same text)')
     ex2.stub(r'EntityType( as [\w:]+)?>?::from_normalized_str$', lambda ex_, st, c, A: ok(payload['entity_type']) if getattr(strip(ex_, st, A[0]), 'id', None) == est_ty.id else None, 'parsing the printed entity type gives the type back (C05)')
     ex2.stub(r'Name( as [\w:]+)?>?::from_normalized_str$', lambda ex_, st, c, A: ok(payload['fn_name']) if getattr(strip(ex_, st, A[0]), 'id', None) == est_fn.id else (print('DBG from_normalized_str', A, strip(ex_, st, A[0]), est_fn) if os.environ.get('C06_DEBUG') else None), 'parsing the printed function name gives the name back (C05)')
     ex2.stub(r'SmolStr::as_str$|<(smol_str::)?SmolStr as Deref>::deref$', lambda ex_, st, c, A: A[0], 'SmolStr as str')
     ex2.stub(r'is_known_extension_func_name$', lambda ex_, st, c, A: BoolV(T), 'the function is a known extension function (precondition: the policy validated)')
-    outs2 = ex2.run(f_est, [est_val, Ref(0, ('local', 'ID'))], heap={'ID': Opaque('ast::policy::PolicyID', 'policy id')})
+    if fmt == 'EST':
+        outs2 = ex2.run(f_est, [est_val, Ref(0, ('local', 'ID'))], heap={'ID': Opaque('ast::policy::PolicyID', 'policy id')})
+    else:
+        outs2 = ex2.run(f_est, [est_val], subst={'B': 'ast::expr::ExprBuilder<()>'})
     ctx.absorb(ex2)
     ctx.panic_summary(nm + ' (back to AST)', outs2, ex2)
     rets2 = [o for o in outs2 if o.kind == 'ret']
     orig = shape(ex, rets[0].st, node, tok)
-    good = []
+    def result_of(o):
+        if fmt == 'EST':
+            return o.val.fields[0] if isinstance(o.val, Agg) and o.val.variant == 'Ok' else None
+        return o.val
+    last = None
     for o in rets2:
-        if isinstance(o.val, Agg) and o.val.variant == 'Ok':
-            got = shape(ex2, o.st, o.val.fields[0], tok)
-            good.append(z3.And(o.pc + [z3.BoolVal(got == orig)]))
-            last = got
-        else:
-            good.append(F if not o.pc else z3.And(o.pc + [F]))
-            last = ('error', repr(o.val)[:80])
+        r_ = result_of(o)
+        last = shape(ex2, o.st, r_, tok) if r_ is not None else ('error', repr(o.val)[:80])
     # AST invariant (every AST is built through ExprBuilder, whose `and` / `or` fold two boolean literals): a && / || node never has two boolean literals as children
     pre = []
     if label in ('&&', '||'):
@@ -206,10 +236,10 @@ def round_trip(ctx, label, build):
             return z3.And(ex2.is_variant(kd, 'Lit'), ex2.is_variant(lt, 'Bool'))
         pre = [z3.Not(z3.And(is_bool_lit(back[0]), is_bool_lit(back[1])))]
     # every path must return the original node: the disjunction of (path taken and not the same node) is unsatisfiable
-    bad = [z3.And(o.pc + [z3.BoolVal(not (isinstance(o.val, Agg) and o.val.variant == 'Ok' and shape(ex2, o.st, o.val.fields[0], tok) == orig))]) for o in rets2]
+    bad = [z3.And(o.pc + [z3.BoolVal(not (result_of(o) is not None and shape(ex2, o.st, result_of(o), tok) == orig))]) for o in rets2]
     ctx.decide(f'{nm}/same kind, same operator, children in place', pre + [z3.Or(bad) if bad else T], ex=ex2,
                sample={'node': str(orig)[:200], 'est': str(shape(ex, rets[0].st, est_val, {**tok, **{e.id: f'est(child{i})' for i, e in enumerate(ests)}}))[:200], 'back': str(last)[:200]},
-               on_sat=lambda m: battery_replay(ctx, nm, 'est/expr.rs + ast/expr.rs: AST <-> EST conversion of an expression node', f'a {label} node does not survive AST -> EST -> AST'))
+               on_sat=lambda m: battery_replay(ctx, nm, ('est/expr.rs' if fmt == 'EST' else 'pst/expr.rs + pst/ast_conversions.rs') + f' + ast/expr.rs: AST <-> {fmt} conversion of an expression node', f'a {label} node does not survive AST -> {fmt} -> AST', fmt))
     ctx.decide(f'{nm}/paths-cover', [z3.Not(z3.Or([z3.And(o.pc) if o.pc else T for o in rets2]))], ex=ex2)
     ctx.decide(f'{nm}/witness', [z3.Or([z3.And(o.pc) if o.pc else T for o in rets2] or [F])], expect='sat', ex=ex2)
 
@@ -231,16 +261,16 @@ POLICIES = ['@a("x") @b("") @c permit(principal, action, resource);', 'forbid(pr
             '@id("p") permit(principal, action, resource) when { principal.a } when { resource.b } unless { context.c };']
 
 
-def battery_replay(ctx, name, role, why):
-    cache = ctx.__dict__.setdefault('_c06_battery', {})
+def battery_replay(ctx, name, role, why, fmt='EST'):
+    cache = ctx.__dict__.setdefault('_c06_battery' + fmt, {})
     if 'result' not in cache:
         cache['result'] = None
         for cnd in [W % c for c in CONDS] + POLICIES:
-            a = ctx.native.ask({'op': 'est_roundtrip', 'policy': cnd})
+            a = ctx.native.ask({'op': 'est_roundtrip', 'policy': cnd, 'format': fmt})
             if 'equal' not in a:
                 return ctx.mismatch(name, f'est_roundtrip probe `{cnd}`: {a}')
             if not a['equal']:
-                cache['result'] = (f'`{cnd}` becomes `{a.get("back")}` after policy -> JSON -> policy', {'op': 'est_roundtrip', 'policy': cnd})
+                cache['result'] = (f'`{cnd}` becomes `{a.get("back")}` after policy -> {fmt} -> policy', {'op': 'est_roundtrip', 'policy': cnd, 'format': fmt})
                 break
     r = cache['result']
     if r:
@@ -249,7 +279,10 @@ def battery_replay(ctx, name, role, why):
 
 
 def battery_selftest(ctx):
-    return battery_replay(ctx, 'native battery', 'est/expr.rs: JSON policy format round trip', 'native JSON round-trip battery')
+    r = battery_replay(ctx, 'native battery', 'est/expr.rs: JSON policy format round trip', 'native JSON round-trip battery')
+    if r and r[0] != 'unreplayed':
+        return r
+    return battery_replay(ctx, 'native battery (PST)', 'pst/*: programmatic syntax tree round trip', 'native PST round-trip battery', 'PST')
 
 
 def nodes():
@@ -477,6 +510,7 @@ def policy_round_trip(ctx, has_cond, effect):
 
 def families(ctx):
     fam = [(f'round trip of a {label} node', (lambda label=label, b=b: round_trip(ctx, label, b))) for label, b in nodes()]
+    fam += [(f'PST round trip of a {label} node', (lambda label=label, b=b: round_trip(ctx, label, b, 'PST'))) for label, b in nodes() if not label.startswith('extension call')]
     for who in ('principal', 'resource'):
         fam += [(f'{who} constraint {label}', (lambda who=who, label=label, b=b: constraint_round_trip(ctx, who, label, b))) for label, b in constraint_shapes()]
     fam += [(f'action constraint {label}', (lambda label=label, b=b: constraint_round_trip(ctx, 'action', label, b, action=True))) for label, b in action_shapes()]
@@ -495,7 +529,8 @@ def run(ctx):
                         '(ExprBuilder::and / or fold them, and every AST is built through the builder)',
                         'leaves whose text form is out of reach are opaque and assumed to round-trip: printing and re-parsing of entity type names and extension function names (C05), ast::Pattern <-> EST pattern elements, '
                         'literal values (CedarValueJson), unknowns; the function of an extension call is assumed to be a known extension function',
-                        'NOT covered: JSON (serde) serialisation itself, entity uids / literal values as JSON, template links, policy sets, the PST and protobuf formats']
+                        'the same expression-node round trip is decided for the programmatic syntax tree (AST -> PST through PstBuilder, PST -> AST through pst::Expr::into_expr and the ast builder), except extension calls (PST keys them by name strings)',
+                        'NOT covered: JSON (serde) serialisation itself, entity uids / literal values as JSON, template links, policy sets, PST scope constraints / policies, the protobuf format']
     return ctx.finish('Solver-decided AST <-> EST round trip of the JSON policy format at three levels (expression nodes, scope constraints, whole template: effect, constraints, condition, annotations), executed from the MIR of ast/expr.rs, ast/expr_builder.rs and est/expr.rs: for every kind of expression node, AST -> EST '
                       '(generic walker, ExprBuilder::{unary_app, binary_app} dispatch, est::Builder) followed by EST -> AST (est::Expr::try_into_ast and the real ast constructors) yields a node of the same kind and operator '
                       'with the children in the same positions; the second run starts from the value the first one produced.')
